@@ -64,15 +64,17 @@ def regression_behaviours():
     return out
 
 
-def random_behaviour(rng, max_blocks, ng):
-    """a schedule that follows a small model of the repaired node, so that the named gates are the ones reached"""
-    chain = []                      # events of blocks 1..
+def random_behaviour(rng, max_blocks, ng, pre=()):
+    """a schedule that follows a small model of the repaired node, so that the named gates are the ones reached.
+    pre: the blocks a node started on a stored file has already processed (they are not reorged)"""
+    chain = [(e["k"], e["g"]) for e in pre]                      # events of blocks 1..
     live = set()
-    cur, dpc, lo, hi, ch = 1, "wait", 0, 0, []
-    blocks = set()
+    cur, dpc, lo, hi, ch = len(chain) + 1, "wait", 0, 0, []
+    blocks = {len(chain)} if chain else set()
+    floor = len(chain)
     dirty = False
     tracked = {}                    # num -> generation
-    gen, gens = 0, []
+    gen, gens = 0, [0] * len(chain)
     steps = []
     restarts = reorgs = 0
 
@@ -100,6 +102,7 @@ def random_behaviour(rng, max_blocks, ng):
             elif k == "rem":
                 live.discard(g)
 
+    relive()
     for _ in range(rng.randrange(8, 60)):
         acts = []
         if len(chain) < max_blocks:
@@ -112,7 +115,7 @@ def random_behaviour(rng, max_blocks, ng):
             acts += ["track"] * 5
         if restarts < 3:
             acts += ["restart"]
-        if reorgs < 3 and 1 <= len(chain) < max_blocks - 1:
+        if reorgs < 3 and floor + 1 <= len(chain) < max_blocks - 1:
             acts += ["reorg"]
         if dirty and not ch:
             acts += ["detect"] * 3
@@ -145,7 +148,7 @@ def random_behaviour(rng, max_blocks, ng):
         elif a == "reorg":
             reorgs += 1
             depth = rng.randrange(1, 4)
-            f = max(1, len(chain) - depth + 1)
+            f = max(floor + 1, len(chain) - depth + 1)
             newlen = len(chain) + rng.randrange(1, 3)
             del chain[f - 1:]; del gens[f - 1:]
             gen += 1
@@ -166,6 +169,25 @@ def random_behaviour(rng, max_blocks, ng):
                 blocks = {n for n in blocks if n < r}
                 ch, dpc, cur = [], "wait", (max(blocks) if blocks else 0) + 1
     return dict(ng=ng, steps=steps)
+
+
+FIXTURES = os.path.join(os.path.dirname(os.path.abspath(__file__)), "..", "fixtures")
+
+
+def fixture_behaviours(rng, n):
+    """an upgraded node: it starts on a store file that the repository's code wrote earlier (fixtures/lastger_*.sqlite, see
+    fixtures/README.md) and goes on from there; the chain it had processed is rebuilt from the description next to the file"""
+    out = []
+    for f in sorted(os.listdir(FIXTURES)):
+        if not (f.startswith("lastger_") and f.endswith(".json")):
+            continue
+        d = json.load(open(os.path.join(FIXTURES, f)))
+        base = dict(ng=d["ng"], gerseed=d["gerseed"], pre=d["pre"], fixture=os.path.realpath(os.path.join(FIXTURES, f[:-5] + ".sqlite")))
+        out.append(dict(base, steps=[], tag="fixture %s, nothing new" % f))
+        for i in range(n):
+            b = random_behaviour(rng, len(d["pre"]) + rng.choice([2, 4, 6]), d["ng"], pre=d["pre"])
+            out.append(dict(base, steps=b["steps"], tag="fixture %s + random %d" % (f, i)))
+    return out
 
 
 def sample_edge_cover(cfg, sc, rng, n, timeout):
@@ -245,13 +267,15 @@ def body():
             rnd = []
             for i in range(1500 if thorough else 150):
                 rnd.append(random_behaviour(rng, rng.choice([6, 8, 12]), rng.choice([2, 3, 5])))
-            behs, n_reg, n_edge = reg + edge + rnd, len(reg), len(edge)
+            fix = fixture_behaviours(rng, 60 if thorough else 8)
+            behs, n_reg, n_edge = reg + edge + rnd + fix, len(reg), len(edge)
             # DownloadBufferSize is configuration: small buffers make a backlog larger than the buffer an ordinary event
-            for b in edge + rnd:
+            for b in edge + rnd + fix:
                 b["buf"] = rng.choice([1, 2, 3, 100])
                 # the node's own L1 info tree syncer may be behind the chain the GERs were injected from: the first look-ups of a
                 # GER find nothing yet (fewer than the retry limit of the syncer, 3 in this harness)
                 b["lag"] = rng.choice([0, 0, 1, 2])
+        n_fix = sum(1 for b in behs if b.get("fixture"))
         # (B) real code
         drv = V.build_driver("lastger")
         bf, tf = sc.path("beh.json"), sc.path("trace.ndjson")
@@ -260,7 +284,7 @@ def body():
         with open(tf, "w") as whole:
             for k in range(0, len(behs), CHUNK):
                 cf = sc.path("trace-%d.ndjson" % k)
-                json.dump([dict(ng=b["ng"], buf=b.get("buf", 0), lag=b.get("lag", 0), steps=b["steps"]) for b in behs[k:k + CHUNK]], open(bf, "w"))
+                json.dump([{k_: b[k_] for k_ in ("ng", "buf", "lag", "steps", "pre", "fixture", "gerseed") if k_ in b} for b in behs[k:k + CHUNK]], open(bf, "w"))
                 V.run_driver(drv, ["-in", bf, "-out", cf])
                 whole.write(open(cf).read())
                 os.remove(cf)
@@ -298,7 +322,7 @@ def body():
             kinds = sorted(set(x["inv"] + ("[" + x["kf"] + "]" if x.get("kf") else "") for x in vs))
             res.add_violation("%s at trace %d line %d (%d answers rejected in this behaviour: %s)%s: %s" % (
                 v["inv"], v["t"], v["l"], len(vs), ",".join(kinds), " tag=" + b["tag"] if b.get("tag") else "", json.dumps(v["info"])),
-                dict(behaviour=dict(ng=b["ng"], steps=b["steps"]), violation=v, trace=evs[s:e][:400]))
+                dict(behaviour={k_: b[k_] for k_ in ("ng", "buf", "lag", "steps", "pre", "fixture", "gerseed") if k_ in b}, violation=v, trace=evs[s:e][:400]))
         nstuck = sum(1 for e in evs if e["ev"] == "stuck")
         ndrift = sum(1 for e in evs if e["ev"] == "drift")
         if nstuck and not hard:
@@ -358,7 +382,8 @@ def body():
             evaluations=nq, distinct_nontrivial=len(served),
             rule="behaviours = regression schedules (F2, F2b, candidate hole) + seeded sample of TLC's edge cover of LastGER.tla "
                  "(generator cfg; half uniform, half biased to long paths) + seeded random schedules (<=12 blocks, <=5 GERs, "
-                 "restarts, reorgs); after every step every X in 0..NG+1 is asked; evaluations = answers judged; "
+                 "restarts, reorgs) + the same random schedules for a node started on a store file written earlier by the "
+                 "repository's code (fixtures/lastger_*.sqlite: 9 processed blocks, an upgrade); after every step every X in 0..NG+1 is asked; evaluations = answers judged; "
                  "non-trivial = distinct (X, root served, last processed block, at rest) with a root served",
             model=[dict(spec="LastGER.tla", cfg=m["cfg"], states=m["distinct"], transitions=m["generated"], depth=m["depth"],
                         wall_s=m["wall_s"]) for m in mcs],
@@ -370,7 +395,7 @@ def body():
             regressions=regs,
             edge_cover=dict(transitions_in_generator=total_edges, replayed=n_edge, generator_states=gst["distinct"],
                             fraction=round(n_edge / total_edges, 4) if total_edges else None),
-            regression_behaviours=n_reg, random_behaviours=len(behs) - n_reg - n_edge,
+            regression_behaviours=n_reg, random_behaviours=len(behs) - n_reg - n_edge - n_fix, fixture_behaviours=n_fix,
             monitor=dict(spec="LastGERTrace.tla", events=len(evs), wall_s=info["wall_s"]),
             drift_steps=ndrift, gate_timeouts=nstuck,
             soft_notes=dict(LeastIndexFirst=soft, meaning="answers that were a qualifying root but not the one with the least index "
